@@ -5,7 +5,7 @@ from __future__ import annotations
 import ast
 
 from ..core import rule
-from ..dataflow import DefUse
+from ..dataflow import DefUse, origins
 from ..program import AnalysisError, dotted, src
 from ..core import walk_local  # inline-aware
 from .common import handler_catching, where, loops_over
@@ -40,11 +40,28 @@ def m1(ctx):
     if len(ys) < 2:
         raise AnalysisError("MultiGetReporter.report: expected two yields")
     seen = {True: False, False: False}
+    # the (href, resource) pair bound by the loop over resources_by_hrefs(...)
+    mg_loops = loops_over(cfg, "resources_by_hrefs", du, exact=True)
+    rvar = None
+    for lp in mg_loops:
+        tg = lp.ast.target
+        if isinstance(tg, ast.Tuple) and len(tg.elts) == 2 and isinstance(tg.elts[1], ast.Name):
+            rvar = tg.elts[1].id
+    if rvar is None:
+        raise AnalysisError("MultiGetReporter.report: `for href, resource in resources_by_hrefs(...)` not found")
+    # the data call: get_properties_with_data(self.data_property, href, <that resource>, ...)
+    data_calls_ok = []
+    for n_ in cfg.nodes:
+        for c_ in n_.calls():
+            if (dotted(c_.func) or "").endswith("get_properties_with_data"):
+                a2 = origins(du, n_, c_.args[2]) if len(c_.args) > 2 else []
+                data_calls_ok.append(bool(c_.args) and dotted(c_.args[0]) == "self.data_property" and bool(a2)
+                                     and all(o.kind == "elem" and o.node in mg_loops and o.path == (1,) for o in a2))
     for y in ys:
         st = y.ast.value.value
         isnone = None
         for t, pol in cfg.required_conditions(y):
-            r = _none_test(t, pol, "resource")
+            r = _none_test(t, pol, rvar)
             if r is not None:
                 isnone = r
         if isnone is None or not isinstance(st, ast.Call):
@@ -67,13 +84,10 @@ def m1(ctx):
             ok = isinstance(status, str) and status.startswith("200") and bool(ps)
             from_data = False
             if ps:
-                for x in ast.walk(ps[0]):
-                    if isinstance(x, ast.Name):
-                        for d in du.reaching(y, x.id):
-                            if isinstance(d.value, ast.Call) and (dotted(d.value.func) or "").endswith("get_properties_with_data") \
-                                    and d.value.args and dotted(d.value.args[0]) == "self.data_property" \
-                                    and len(d.value.args) > 2 and dotted(d.value.args[2]) == "resource":
-                                from_data = True
+                from ..dataflow import depends_on
+                deps = depends_on(du, y, ps[0])
+                from_data = any(d_.startswith("<call:") and d_.rstrip(">").endswith("get_properties_with_data") for d_ in deps) \
+                    and bool(data_calls_ok) and all(data_calls_ok)
             obs.append(ctx.ob(ok and from_data, fi.qualname, where(fi, y), "resolved href -> properties of that resource",
                               "propstat from get_properties_with_data(self.data_property, href, resource, ...)",
                               "the response for a resolved href is not built from get_properties_with_data(self.data_property, href, resource, ...)"))
